@@ -160,6 +160,17 @@ for f in sorted(glob.glob(os.path.join(VERIF, "tools", "manifest_c*.json"))):
 # the code translator for the bit-level decoders of cameleon/src/u3v/register_map.rs (tools/translate_decoders.py):
 # appended to the text / note / technique of C13 and C14, whatever tools/manifest_c13.json / manifest_c14.json say
 SOURCE_TIE = {
+    "C01": dict(
+        text=" TIE TO THE SOURCE CODE: tools/translate_codec.py re-translates on every run, from genapi/src/utils.rs into "
+             "gen/CodecSrc.v, int_from_slice and bytes_from_int (the local macro_rules! arms, the invocation list of (length, "
+             "signed type, unsigned type) entries, tested in the source's order) and float_from_slice / bytes_from_float (their "
+             "match arms), over the byte conversions of lib/RustBytes.v (from_xx_bytes of a slice of the wrong size and "
+             "copy_from_slice of the wrong length panic; `as` keeps the low bits); four theorems C01_*_from_source prove the "
+             "translated functions equal to the model's for every byte slice, value, length, byte order and signedness, and "
+             "C01_source_int_roundtrip states the round trip of the translated code itself.",
+        note=" Also trusted: tools/translate_codec.py and lib/RustBytes.v; f32 <-> f64 conversion is the model's widen / "
+             "narrow on IEEE bit patterns in the translation too.",
+        technique=" + code translator (value codecs of genapi/src/utils.rs)"),
     "C13": dict(
         text=" TIE TO THE SOURCE CODE: tools/translate_decoders.py (typed mini-Rust parser + Gallina emitter tools/minirust.py, "
              "debug-build semantics of lib/RustInt.v: shift-amount, overflow and checked_add rules, literal typing from the "
